@@ -196,14 +196,22 @@ def gen_conv(tier, seed):
     for spec in CONV_SPECS:
         for flip in (False, True):
             yield {'spec': spec, 'flip': flip, 'seed': seed}
+        # the layer variable held as a plain data variable (a file in which no variable lists it in a `coordinates` attribute)
+        yield {'spec': spec, 'flip': False, 'seed': seed, 'depth_as_variable': True}
 
 
 def test_conv(inp):
     with warnings.catch_warnings():
         warnings.simplefilter('ignore')
         ds = datasets.build(inp['spec'])
+        # which variables are depth coordinates is a fact about the dataset (CF: one-dimensional, `positive` up / down), not the convention's say
+        oracle = {str(n) for n, v in ds.variables.items() if v.ndim == 1 and str(v.attrs.get('positive', '')).lower() in ('up', 'down')}
+        if inp.get('depth_as_variable'):
+            ds = ds.reset_coords(sorted(n for n in oracle if ds[n].dims != (n,)))       # a dimension coordinate stays an (index) coordinate
         ems = ds.ems
         dcs = list(ems.depth_coordinates)
+        if {str(dc.name) for dc in dcs} != oracle:
+            return f'depth_coordinates names {sorted(str(dc.name) for dc in dcs)}, the dataset has the depth coordinates {sorted(oracle)}'
         if not dcs:
             return None
         rng = random.Random(inp['seed'])
